@@ -462,7 +462,9 @@ Definition enc_fnode (n : fnode) : val :=
        enc_bool (f_link n);
        enc_option VB (f_dest n);
        VN (f_ino n);
-       enc_bool (negb (f_link n) && N.ltb 1 (f_nlink n)) ].
+       (* "is a hard link of a cache object": st_nlink alone also counts workspace-to-workspace links,
+          whose count changes when a sibling path is removed in the same call - not tracked here *)
+       enc_bool (negb (f_link n) && N.ltb 1 (f_nlink n) && negb (N.eqb (f_ino n) 0)) ].
 Definition enc_ws (w : ws) : val :=
   VL (map (fun kn => VL [enc_key (fst kn); enc_fnode (snd kn)]) (sort_keyed w)).
 Definition enc_outcome (o : outcome) : val :=
